@@ -324,7 +324,8 @@ _ENS_PRIV_PARSE = (["implies(returns(), spec.hd.xkey_reject_reason%s is None)" %
                   "implies(returns(), spec.hd.version_info(version)[1] == 'prv')"] + _PARSE_FIELDS +
                  ["implies(returns(), rest[41] == 0 and result[5] == int.from_bytes(rest[42:74], 'big'))",
                   "implies(returns(), result[6] == spec.hd.version_info(version)[2])",
-                  "implies(returns(), result[7] == spec.hd.version_pub('x' if result[6] == 'mainnet' else 't'))"])
+                  # the public half of an imported private key keeps the SLIP-132 type (zprv -> zpub ...)
+                  "implies(returns(), result[7] == spec.hd.version_pub(spec.hd.version_info(version)[0]))"])
 # quick tier: one version of each family and kind; thorough tier: every version of the table
 _parse_contract("verif.harness.hd.priv_parse_parts", [_PRV_VERS[0], _PRV_VERS[7], _PUB_VERS[0], _UNKNOWN_VERS[1]], _ENS_PRIV_PARSE, True, timeout_ms=5000)
 _parse_contract("verif.harness.hd.priv_parse_parts#all_versions", _PRV_VERS + _PUB_VERS + _UNKNOWN_VERS, _ENS_PRIV_PARSE, True,
@@ -383,6 +384,8 @@ def _gen_rt(vers, pub):
         n = 0
         for node in _node_gen(rng, tier, None):
             d = dict(node)
+            if d["depth"] == 0 and n % 3:
+                d["fp"], d["num"] = bytes(4), 0
             d["version"] = vers[n % len(vers)]
             n += 1
             if pub:
@@ -391,8 +394,10 @@ def _gen_rt(vers, pub):
     return gen
 
 
+# (a node of depth 0 is a master node: no parent fingerprint, no child number -- BIP32 refuses anything else on import)
+_WELL_FORMED = "depth > 0 or (fp == bytes(4) and num == 0)"
 contract("verif.harness.hd.priv_raw_roundtrip", props=("C08",), nl_uf=True,
-         params=dict(_PRIV_PARAMS, version=("choice", _PRV_VERS)),
+         params=dict(_PRIV_PARAMS, version=("choice", _PRV_VERS)), requires=[_WELL_FORMED],
          ensures=["returns()", "result[0] is True",
                   "result[1] == k and result[2] == c and result[3] == depth and result[4] == fp and result[5] == num",
                   "spec.curve.same(result[6], spec.curve.mul_G(k)) and result[7] == c and result[8] == depth and result[9] == fp and result[10] == num",
@@ -400,7 +405,7 @@ contract("verif.harness.hd.priv_raw_roundtrip", props=("C08",), nl_uf=True,
          gen=_gen_rt(_PRV_VERS, False))
 
 contract("verif.harness.hd.pub_raw_roundtrip", props=("C08",), nl_uf=True,
-         params=dict(_PUB_PARAMS, version=("choice", _PUB_VERS)),
+         params=dict(_PUB_PARAMS, version=("choice", _PUB_VERS)), requires=[_WELL_FORMED],
          ensures=["returns()", "result[0] is True",
                   "spec.curve.same(result[1], K) and result[2] == c and result[3] == depth and result[4] == fp and result[5] == num",
                   "result[6] == version", "result[7] == spec.hd.version_info(version)[2]"],
@@ -446,6 +451,7 @@ def _gen_text_rt(rng, tier):
 
 _s("verif.harness.hd.xprv_roundtrip",
    params=dict(_PRIV_PARAMS, network=STR, priv_version="bytes:4", pub_version="bytes:4"),
+   requires=[_WELL_FORMED],
    ensures=["returns()",
             "result['xprv'] == spec.hd.b58_xkey(spec.hd.xprv_ser(priv_version, depth, fp, num, c, k))",
             "result['xpub'] == spec.hd.b58_xkey(spec.hd.xpub_ser(pub_version, depth, fp, num, c, spec.curve.mul_G(k)))",
